@@ -1,4 +1,119 @@
+import BobModel.Model.ArchiveFS
 import BobModel.Util.Proto
-open Lean Proto
-/-- stub driver of C09: replaced when the model of this property is built -/
-def main : IO Unit := runPure fun _ => err "unsupported"
+open Lean Proto ArchiveFS
+
+/-
+request:
+ {"op":"run",
+  "procs":[{"kind":"package"|"mirror"|"buildid"|"fprnt"|"reader","payload":[n..],"nPack":n,"consumed":n,"fileMode":b}, ..],
+  "sched":[[pid,"run"|"fail"|"kill"|"failFetch"], ..]}
+Every schedule entry drives ONE visible operation of `pid` through `ArchiveFS.step`.  Operations without
+a system call of their own are taken silently first: `statDest` of an overwriting upload, `fetch k`
+(producing the next chunk), a `flush` with nothing buffered.  "failFetch" lets the pending `fetch` raise.
+reply: {"events":[{"pid","pre","choice","post","app":[chunks appended to the process' inode]}..],
+        "final":{"art":inode|null,"buildid":..,"fprnt":..,"tmp":[[k,inode]..],"dir":b,
+                 "procs":[{"pc","killed","linked","created","tmp","acc"}..]}}
+-/
+
+def kindOf (s : String) : Kind :=
+  match s with
+  | "package" => .package
+  | "mirror" => .mirror
+  | "buildid" => .md .buildid
+  | "fprnt" => .md .fprnt
+  | _ => .reader
+
+def natList (j : Json) (k : String) : List Nat :=
+  (getArr j k).map fun x => (x.getNat?.toOption).getD 0
+
+def paramsOf (j : Json) : Params :=
+  { kind := kindOf (getStr j "kind"), payload := natList j "payload", nPack := getNat j "nPack",
+    consumed := getNat j "consumed", fileMode := getBool j "fileMode" }
+
+def idle : Params := { kind := .reader, payload := [], nPack := 0, consumed := 0, fileMode := false }
+
+def progOf (ps : List Params) : Pid → Params := fun p => ps.getD p idle
+
+def lsName : LinkSt → String
+  | .linked => "linked" | .lost => "lost" | .err => "err"
+
+def resName : Result → String
+  | .ok => "ok" | .skipped => "skipped" | .lost => "lost" | .failed => "failed"
+  | .notFound => "notFound" | .read => "read"
+
+def pcName : PC → String
+  | .mOpen => "mOpen" | .statDest => "statDest" | .ensureDir => "ensureDir" | .create => "create"
+  | .fetch k => s!"fetch:{k}" | .write k => s!"write:{k}" | .flush => "flush"
+  | .close ok => s!"close:{ok}" | .chmod => "chmod" | .publish => "publish"
+  | .unlink st => "unlink:" ++ lsName st | .fClose => "fClose" | .fUnlink => "fUnlink"
+  | .rOpen => "rOpen" | .rRead k => s!"rRead:{k}" | .done r => "done:" ++ resName r
+
+def silent (pr : Params) (pc : PC) (stopAtFetch : Bool) : Bool :=
+  match pc with
+  | .statDest => overwrite pr.kind
+  | .fetch _ => !stopAtFetch
+  | .flush => ((written pr).drop pr.nPack).isEmpty
+  | _ => false
+
+/-- take silent steps of `p` (at most `fuel`) -/
+def advance (prog : Pid → Params) (stopAtFetch : Bool) : Nat → State → Pid → State
+  | 0, s, _ => s
+  | fuel + 1, s, p =>
+    if (s.procs p).killed then s
+    else if silent (prog p) (s.procs p).pc stopAtFetch then advance prog stopAtFetch fuel (step prog s p .run) p
+    else s
+
+def jnat (n : Nat) : Json := Json.num (JsonNumber.fromNat n)
+
+def natsJson (l : List Nat) : Json := Json.arr (l.map jnat).toArray
+
+def inodeJson (n : Inode) : Json :=
+  Json.mkObj [("chunks", natsJson n.chunks), ("closed", Json.bool n.closed), ("mode", Json.bool n.mode),
+    ("owner", jnat n.owner)]
+
+def nameJson (s : State) (n : ArchiveFS.Name) : Json :=
+  match s.names n with
+  | none => Json.null
+  | some i => Json.mkObj [("ino", jnat i), ("inode", inodeJson (s.inodes i))]
+
+def procJson (q : Proc) : Json :=
+  Json.mkObj [("pc", Json.str (pcName q.pc)), ("killed", Json.bool q.killed), ("linked", Json.bool q.linked),
+    ("created", Json.bool q.created), ("tmp", jnat q.tmp), ("acc", natsJson q.acc)]
+
+def finalJson (s : State) (n : Nat) : Json :=
+  let tmps := (List.range s.nextTmp).filterMap fun k =>
+    match s.names (.tmp k) with
+    | none => none
+    | some i => some (Json.arr #[jnat k, Json.mkObj [("ino", jnat i), ("inode", inodeJson (s.inodes i))]])
+  Json.mkObj [("art", nameJson s .art), ("buildid", nameJson s (.md .buildid)), ("fprnt", nameJson s (.md .fprnt)),
+    ("tmp", Json.arr tmps.toArray), ("dir", Json.bool s.dirExists),
+    ("procs", Json.arr ((List.range n).map fun p => procJson (s.procs p)).toArray)]
+
+def runSched (prog : Pid → Params) : List Json → State → List Json → State × List Json
+  | [], s, acc => (s, acc.reverse)
+  | e :: rest, s, acc =>
+    match e with
+    | .arr a =>
+      let p := ((a.getD 0 Json.null).getNat?.toOption).getD 0
+      let ch := match a.getD 1 Json.null with | .str c => c | _ => "run"
+      let s0 := if ch == "kill" then s else advance prog (ch == "failFetch") 1000 s p
+      let c : Choice := if ch == "kill" then .kill else if ch == "run" then .run else .fail
+      let pre := (s0.procs p).pc
+      let preIno := (s0.procs p).ino
+      let s1 := step prog s0 p c
+      let before := if (s0.procs p).created then (s0.inodes preIno).chunks.length else 0
+      let post := s1.procs p
+      let app := if post.created then (s1.inodes post.ino).chunks.drop before else []
+      let ev := Json.mkObj [("pid", jnat p), ("pre", Json.str (pcName pre)), ("choice", Json.str ch),
+        ("post", Json.str (pcName post.pc)), ("app", natsJson app), ("killed", Json.bool (s0.procs p).killed)]
+      runSched prog rest s1 (ev :: acc)
+    | _ => runSched prog rest s acc
+
+def main : IO Unit := runPure fun j =>
+  match getStr j "op" with
+  | "run" =>
+    let ps := (getArr j "procs").map paramsOf
+    let prog := progOf ps
+    let (s, evs) := runSched prog (getArr j "sched") (init prog) []
+    Json.mkObj [("events", Json.arr evs.toArray), ("final", finalJson s ps.length)]
+  | _ => err "bad-op"
